@@ -63,7 +63,7 @@ impl Check for FsmWire {
         let n = rng.range(4, if thorough { 40 } else { 24 });
         for _ in 0..n {
             let c = rng.below(2); // 0 = connection initiated by the DUT (active), 1 = by the peer (passive)
-            match rng.weighted(&[10, 22, 18, 5, 4, 4, 6, 4, 10, 3, 2]) {
+            match rng.weighted(&[10, 22, 18, 5, 4, 4, 6, 4, 10, 3, 2, 3]) {
                 0 => ops.push(jarr!["conn"]),
                 1 => ops.push(jarr!["open", c, *rng.pick(&["good", "good", "good", "good", "bad-as", "id0", "hold1", "badver", "idmcast"])]),
                 2 => ops.push(jarr!["ka", c]),
@@ -74,6 +74,7 @@ impl Check for FsmWire {
                 7 => ops.push(jarr!["listen", rng.coin()]),
                 8 => ops.push(jarr!["wait", *rng.pick(&[1u64, 100, 3100, 5200, 9000])]),
                 9 => ops.push(jarr!["shutdown"]),
+                11 => ops.push(jarr!["update"]),
                 _ => ops.push(jarr!["badlen", c]),
             }
             // sometimes several inputs land in the same instant, with no quiescence in between
@@ -105,7 +106,7 @@ impl Check for FsmWire {
 
     fn info(&self) -> CheckInfo {
         CheckInfo {
-            rule: "one neighbour, both connection roles: the peer connects to the DUT and/or lets the DUT's active-connect loop in; per connection a hand-driven sequence of OPEN (acceptable / wrong AS / identifier 0 or multicast / hold time 1 / version 3), KEEPALIVE, UPDATE, ROUTE-REFRESH, NOTIFICATION, bad-length frame, FIN, RST, operator shutdown, waits across the connect-retry timers; both orderings of the BGP identifiers. After every op at quiescence a reference FSM per role (from the statement) is compared with the arbiter's state; invariants: at most one connection in OpenConfirm/Established, Established only via OpenSent -> acceptable OPEN -> OpenConfirm -> KEEPALIVE, a disallowed message answered by an FSM-error NOTIFICATION naming the state, every teardown frees the slot, collision survivor = Established one else the higher identifier's connection and the loser gets Cease/collision; bounded liveness: once the peer behaves, Established is reached within 60 virtual seconds. non-trivial = both roles had a connection at the same time or a collision was resolved".into(),
+            rule: "one neighbour, both connection roles: the peer connects to the DUT and/or lets the DUT's active-connect loop in; per connection a hand-driven sequence of OPEN (acceptable / wrong AS / identifier 0 or multicast / hold time 1 / version 3), KEEPALIVE, UPDATE, ROUTE-REFRESH, NOTIFICATION, bad-length frame, FIN, RST, operator shutdown, UpdatePeer with a setting that needs a new session (all connections ended, fresh arbiter), waits across the connect-retry timers; both orderings of the BGP identifiers. After every op at quiescence a reference FSM per role (from the statement) is compared with the arbiter's state; invariants: at most one connection in OpenConfirm/Established, Established only via OpenSent -> acceptable OPEN -> OpenConfirm -> KEEPALIVE, a disallowed message answered by an FSM-error NOTIFICATION naming the state, every teardown frees the slot, collision survivor = Established one else the higher identifier's connection and the loser gets Cease/collision; bounded liveness: once the peer behaves, Established is reached within 60 virtual seconds. non-trivial = both roles had a connection at the same time or a collision was resolved".into(),
             components_real: vec!["accept_connection, ConnArbiter, PeerSession::{run,session_loop,run_select,rx_msg,apply_outputs}, apply_disconnect".into(), "fsm::{PeerFsm,Connection}".into(), "the active-connect retry loop (harness replacement over the simulated transport, same structure)".into(), "packet::PeerCodec::try_parse (OPEN validation)".into(), "GrpcService::shutdown_peer".into()],
             components_stubbed: vec!["TCP, clock, listener loop, the remote peer".into()],
             assumptions: vec!["FSM-error subcode may use the code's state numbering (3/4/5) or RFC 6608's (1/2/3)".into(), "identifier equal to the local one is not required to be rejected (RFC 6286)".into(), "sequences are sampled, not enumerated".into()],
@@ -149,6 +150,8 @@ async fn run(case: Json, tol: Tolerate) -> Outcome {
     let mut both_seen = false;
     let mut collisions = 0u64;
     let mut shutdown = false;
+    let mut multihop = false;
+    let mut updated = false;
     let mut burst_extra: Vec<Speaker> = Vec::new();
 
     macro_rules! fail {
@@ -306,6 +309,26 @@ async fn run(case: Json, tol: Tolerate) -> Outcome {
                 }
                 out.hit("op.operator-shutdown");
             }
+            "update" => {
+                // UpdatePeer with a setting that needs a new session (eBGP multihop on / off): every
+                // connection is ended with Cease, the neighbour gets a fresh arbiter, and whatever the
+                // old session tasks do while they wind down must not disturb connections made afterwards
+                multihop = !multihop;
+                updated = true;
+                let peer = api::Peer {
+                    conf: Some(api::PeerConf { neighbor_address: peer_addr.to_string(), peer_asn: PEER_AS, ..Default::default() }),
+                    timers: Some(api::Timers { config: Some(api::TimersConfig { connect_retry: 3, ..Default::default() }), state: None }),
+                    ebgp_multihop: if multihop { Some(api::EbgpMultihop { enabled: true, multihop_ttl: 5 }) } else { None },
+                    ..Default::default()
+                };
+                let _ = w.grpc.update_peer(tonic::Request::new(api::UpdatePeerRequest { peer: Some(peer), do_soft_reset_in: false })).await;
+                for s in sides.iter_mut() {
+                    if s.model != M::Idle {
+                        s.model = M::Idle;
+                    }
+                }
+                out.hit("op.operator-update-peer(needs-new-session)");
+            }
             "burst" => {
                 // raw inputs back to back: no model prediction, invariants only (checked after the settle below)
                 for sub in op.at(1).arr() {
@@ -351,9 +374,23 @@ async fn run(case: Json, tol: Tolerate) -> Outcome {
                     listener = Some(net::listen(listen_addr));
                 }
                 let mut ok = false;
-                for _ in 0..120 {
+                for round in 0..120 {
                     tokio::time::sleep(Duration::from_millis(500)).await;
                     w.quiesce().await;
+                    // After an UpdatePeer that found no session to end, the daemon does not dial again
+                    // (observed, see DESIGN.md; the statement only asks that the slot be free for a new
+                    // attempt): the peer makes that attempt itself after 10 s.
+                    if round == 20 && updated && sides[0].spk.conn.is_none() && sides[1].spk.conn.is_none() {
+                        sides[1].spk = mk();
+                        sides[1].spk.auto_open = true;
+                        sides[1].spk.auto_ka = true;
+                        sides[1].spk.connect(&w, &PipeOpts::default(), &PipeOpts::default());
+                        out.hit("probe.daemon-did-not-dial-after-update-peer");
+                    }
+                    if sides[1].spk.conn.is_some() {
+                        let now = net::now_ms();
+                        sides[1].spk.process_inbox(now);
+                    }
                     if let Some(l) = &mut listener {
                         while let Ok(s) = l.try_recv() {
                             if sides[0].spk.conn.is_none() {
